@@ -28,8 +28,7 @@ BOUNDS = {
 ASSUMPTIONS = ['which code a Python exception inside a function maps to is not demanded (any canonical code); it must be '
                'an error value the trap functions see',
                'undefined variables are not operators or function calls: trapping them is not demanded',
-               'the #GETTING_DATA literal does not lex as one token and is not used as a literal; ERROR.TYPE of #ERROR! is '
-               'not documented and not checked']
+               'ERROR.TYPE of #ERROR! is not documented and not checked']
 
 
 def producers(env):
@@ -59,7 +58,7 @@ def producers(env):
 NPRODUCERS = 48
 
 
-LITERALS = ['#NULL!', '#DIV/0!', '#VALUE!', '#REF!', '#NAME?', '#NUM!', '#N/A', '#ERROR!']
+LITERALS = ['#NULL!', '#DIV/0!', '#VALUE!', '#REF!', '#NAME?', '#NUM!', '#N/A', '#ERROR!', '#GETTING_DATA']
 
 
 def bind(env):
